@@ -54,7 +54,8 @@ func alphabet(d *DAG, kind string) []Op {
 	ops = append(ops,
 		Op{Kind: "tag", Node: 2, Ref: "a"}, Op{Kind: "tag", Node: 3, Ref: "a"}, Op{Kind: "tag", Node: 2, Ref: "b"},
 		Op{Kind: "tag", Node: 0, Ref: "b"}, Op{Kind: "tag", Node: 3, Ref: "b", Ann: true}, Op{Kind: "tag", Node: 2, Ref: ""},
-		Op{Kind: "tag", Node: 3, Ref: "b"}) // same content as the annotated tag of b: Resolve must return the descriptor tagged last
+		Op{Kind: "tag", Node: 3, Ref: "b"},            // same content as the annotated tag of b: Resolve must return the descriptor tagged last
+		Op{Kind: "tag", Node: 3, Ref: "a", Ann: true}) // a second reference tagged with the same annotated descriptor (one shared annotations map)
 	if kind == "oci" {
 		ops = append(ops, Op{Kind: "untag", Ref: "a"}, Op{Kind: "untag", Ref: "b"}, Op{Kind: "untag", Ref: ""})
 		for i := range d.Nodes {
